@@ -1,76 +1,94 @@
 (* C13 — the parallel specification finder is total and its output is a matched pair.
-   Statements only; the model is Parallel/Model.v (bijection.py as it is, plus the two functions of the
-   proposed repair), tied to the code by the correspondence of harness/props/c13.py.
+   Statements only; the model is Parallel/Model.v + Parallel/InfoModel.v (bijection.py as it is since the
+   fix: commits a172a92 and 97589e3), tied to the code by the correspondence of harness/props/c13.py.
 
-   THE PROPERTY IS FALSE OF THE CODE AS IT IS, and the model shows it:
-   * C13_matched_pair_refuted   ParallelSpecFinder: two universes for which find() returns two label
-                                maps that are NOT a matched pair (the second search accepts a pair of
-                                labels that both already have a rule without matching the two rules).
-   * C13_eqpath_raises_refuted  EqPathParallelSpecFinder on the same input: KeyError.
-   Both witnesses are replayed on real searchers by findings/second_search_shortcut.py (known finding).
-   A third defect lies before the modelled part (ParallelInfo asserts on an empty start class).
-
-   WHAT HOLDS of the code as it is (all universes, all fuel):
+   THE CODE AS IT IS (all universes, all rule databases, all fuel):
+   * C13_matched_pair, C13_matched_pair_eqpath   whatever find() returns, in either variant, is a matched
+                                pair: both label maps closed from their roots, made of rules of their
+                                universes (the empty tuple for atoms), and isomorphic through a relation
+                                that respects constructor classes, atoms and a permutation of the children
+                                at every node;
+   * C13_base_finder_never_raises, C13_base_finder_total      ParallelSpecFinder.find() is TOTAL at the model
+                                level: no exception state, both searches and the final walk terminate;
+   * C13_eqpath_finder_never_raises, C13_eqpath_finder_total  the same for EqPathParallelSpecFinder, for every
+                                oracle that answers every question of _eq_path_matches (its answers come from
+                                EquivalenceRuleExtractor over the rule database, outside the model); the
+                                EqPath theorems hold both for the code as it is (pw = false) and with the
+                                proposed repair of the open finding F-C13e (pw = true: a second final walk
+                                compares the equivalence paths along every edge of the two maps — what the
+                                label-level notion of matched pair does not see);
    * C13_first_search_sound     every entry the first search records in matching_info is a pair of
-                                candidate rules of the two labels (same number of children, matching
-                                constructor classes) with a genuine permutation of the child
-                                positions, or the atom entry of two atoms with the same identity;
-   * C13_failure_memo_sound     the failure memo of the first search is sound: a pair recorded as failed
-                                (in `visited`, not in matching_info) is not matchable in the largest
-                                relation "atoms with the same identity, or two candidate rules with an
-                                injective assignment of children that are again related" — whatever
-                                ancestor assumptions were pending when it was recorded; equivalently the
-                                first search answers True whenever the two roots are matchable;
-   * C13_base_finder_total      ParallelSpecFinder's find() is TOTAL at the model level: with fuel above the
-                                number of pairs of labels occurring in the two universes it answers
-                                None or two label maps — it reaches no exception state (KeyError /
-                                IndexError: C13_base_finder_never_raises, for every fuel) and both
-                                searches terminate (the pairs on the recursion stacks are distinct);
-   * C13_maps_use_rules         every binding of the two returned label maps is a rule of its universe
-                                (the empty tuple for an atom);
-   * C13_spec_from_label_map    the specification-construction stage: if the tuples of a label map
-                                reachable from the root equivalence label are stored rules up to
-                                equivalence, SpecificationRuleExtractor invoked with the START label
-                                does not fail and yields a closed rules dictionary with a rule for the
+                                candidate rules (same number of children, matching constructor classes)
+                                with a genuine permutation of the child positions, or the atom entry of two
+                                atoms with the same identity;
+   * C13_failure_memo_sound     a pair recorded as failed is not matchable, whatever ancestor assumptions
+                                were pending; the first search answers True whenever the roots are matchable;
+   * C13_maps_use_rules         every binding of the two returned label maps is a rule of its universe;
+   * C13_universe_well_formed   ParallelInfo._construct_eq_label_rules (model: InfoModel.v, incl. the skipped
+                                empty parent of a172a92): in the universe it builds from a rule database,
+                                every candidate rule and every atom is a stored rule up to equivalence and
+                                the root is the representative of the start label (given that verification
+                                rules have no children);
+   * C13_spec_from_label_map    the specification stage: on a label map whose reachable tuples are stored
+                                rules up to equivalence, SpecificationRuleExtractor invoked with the START
+                                label does not fail and yields a closed rules dictionary with a rule for the
                                 start label (C02's theorem) — also when the start label is not its own
-                                representative (Example C13_start_not_representative; with the root
-                                equivalence label instead, as before a34d719, the start label gets no
-                                rule: Example C13_root_label_instead_of_start).
+                                representative (Examples; with the root equivalence label instead, as
+                                before a34d719, the start label gets no rule);
+   * C13_two_rule_sets, C13_two_rule_sets_eqpath   end to end, from the two rule databases: ParallelInfo
+                                builds the universes, find() returns, and on EACH side the specification
+                                stage succeeds with a closed rules dictionary that has a rule for that side's
+                                start label.  No hypothesis about the universes is left.
 
-   WHAT HOLDS with the proposed repair (findings/second_search_shortcut.diff; the model has both forms
-   and the check follows the one the repository has):
-   * C13_matched_pair_with_repair / C13_matched_pair_with_repair_eqpath   whatever find() returns is a
-                                matched pair: both maps closed from their roots, made of rules of their
-                                universes, and isomorphic through a relation that respects constructor
-                                classes, atoms and a permutation of the children at every node;
-   * C13_repaired_base_finder_total   the repaired ParallelSpecFinder.find() is total as well;
-   * C13_two_rule_sets_with_repair    end to end: when the repaired find() returns, the specification stage
-                                of EACH side (tree of its label map + the extractor invoked with its start
-                                label) does not fail and yields a closed rules dictionary with a rule for
-                                that side's start label — given that the universe handed to the finder is
-                                read off the rule database (every rule and every atom of the universe is a
-                                stored rule up to equivalence) and the start label's representative is the
-                                root equivalence label.
-   Not proved: exception-freedom and termination of the second search of the EqPath variant (its
-   _eq_path_matches runs EquivalenceRuleExtractor over the rule database, outside the model: its
-   answers are an arbitrary oracle table here); completeness of the second search ("finds a pair
-   whenever one exists" is not part of the property). *)
+   HISTORY — the code before 97589e3 (find_base_old / find_eq_old in the model):
+   * C13_matched_pair_refuted   ParallelSpecFinder returned label maps that are not a matched pair;
+   * C13_eqpath_raises_refuted  EqPathParallelSpecFinder raised KeyError on the same input.
+   Replayed on real searchers by findings/second_search_shortcut.py; repaired by 97589e3.
+
+   Not proved: completeness of the second search ("finds a pair whenever one exists" is not part of the
+   property).  Outside the model: the expansion of the searchers, EquivalenceRuleExtractor,
+   CombinatorialSpecification and Isomorphism (the open finding about chained equivalence steps lies there). *)
 From Coq Require Import ZArith List Bool.
 From CSS Require Import Base.Sx Spec.Extractor Spec.ExtractorProofs
   Parallel.Model Parallel.Basics Parallel.First Parallel.Second Parallel.Matched Parallel.Fixed
-  Parallel.Refuted Parallel.SpecStage Parallel.Memo Parallel.Term Parallel.Term2 Parallel.Term3 Parallel.EndToEnd Parallel.Run.
+  Parallel.Refuted Parallel.SpecStage Parallel.Memo Parallel.Term Parallel.Term2 Parallel.Term3
+  Parallel.EndToEnd Parallel.EqSecond Parallel.EqTerm Parallel.InfoModel Parallel.InfoProofs Parallel.Final
+  Parallel.Run.
 Import ListNotations.
 
-(* ---------------------------------------------------------------- refuted on the code as it is *)
-Theorem C13_matched_pair_refuted :
-  exists s1 s2 fuel d1 d2, find_base s1 s2 fuel = Found d1 d2 /\ ~ matched_pair s1 s2 d1 d2.
-Proof. exact base_returns_unmatched_pair. Qed.
+(* ---------------------------------------------------------------- the output is a matched pair *)
+Theorem C13_matched_pair : forall s1 s2 fuel wfuel d1 d2,
+  find_base s1 s2 fuel wfuel = Found d1 d2 -> matched_pair s1 s2 d1 d2.
+Proof. exact find_base_matched. Qed.
 
-Theorem C13_eqpath_raises_refuted :
-  exists s1 s2 fuel oracle, find_eq s1 s2 fuel oracle = EOut (Failed E_KEY) [].
-Proof. exact eqpath_raises_keyerror. Qed.
+Theorem C13_matched_pair_eqpath : forall s1 s2 pw fuel wfuel oracle woracle d1 d2 asked,
+  find_eq s1 s2 pw fuel wfuel oracle woracle = EOut (Found d1 d2) asked -> matched_pair s1 s2 d1 d2.
+Proof. exact find_eq_matched. Qed.
 
-(* ---------------------------------------------------------------- holds of the code as it is *)
+(* ---------------------------------------------------------------- the finder is total *)
+Theorem C13_base_finder_never_raises : forall s1 s2 fuel wfuel e, find_base s1 s2 fuel wfuel <> Failed e.
+Proof. exact find_base_never_raises. Qed.
+
+Theorem C13_base_finder_total : forall s1 s2 fuel wfuel,
+  (length (all_pairs s1 s2) < fuel)%nat ->
+  (length (all_pairs s1 s2) * S (max_arity s2) + 1 < wfuel)%nat ->
+  find_base s1 s2 fuel wfuel = Nothing \/ exists d1 d2, find_base s1 s2 fuel wfuel = Found d1 d2.
+Proof. exact find_base_total. Qed.
+
+Theorem C13_eqpath_finder_never_raises : forall s1 s2 pw fuel wfuel oracle woracle e asked,
+  (forall k, oracle k <> None) -> (forall k, woracle k <> None) ->
+  find_eq s1 s2 pw fuel wfuel oracle woracle <> EOut (Failed e) asked.
+Proof. exact find_eq_never_raises. Qed.
+
+Theorem C13_eqpath_finder_total : forall s1 s2 pw fuel wfuel oracle woracle,
+  (forall k, oracle k <> None) -> (forall k, woracle k <> None) ->
+  (2 * length (all_pairs s1 s2) < fuel)%nat ->
+  (length (all_edges s1 s2) * S (max_arity s2) + 1 < wfuel)%nat ->
+  exists asked, find_eq s1 s2 pw fuel wfuel oracle woracle = EOut Nothing asked \/
+                exists d1 d2, find_eq s1 s2 pw fuel wfuel oracle woracle = EOut (Found d1 d2) asked.
+Proof. exact find_eq_total. Qed.
+
+(* ---------------------------------------------------------------- the first search *)
 Theorem C13_first_search_sound : forall s1 s2 fuel b st,
   find s1 s2 fuel (s_root s1) (s_root s2) init_fstate = Ok (b, st) ->
   forall id1 id2 d c order, mi_get (f_mi st) (id1, id2) = Some d -> In (c, order) d ->
@@ -84,20 +102,19 @@ Theorem C13_failure_memo_sound : forall s1 s2 fuel b st,
   (matchable s1 s2 (s_root s1, s_root s2) -> b = true).
 Proof. exact failure_memo_sound. Qed.
 
-Theorem C13_base_finder_never_raises : forall s1 s2 fuel e, find_base s1 s2 fuel <> Failed e.
-Proof. exact find_base_never_raises. Qed.
-
-Theorem C13_base_finder_total : forall s1 s2 fuel,
-  (length (all_pairs s1 s2) < fuel)%nat ->
-  find_base s1 s2 fuel = Nothing \/ exists d1 d2, find_base s1 s2 fuel = Found d1 d2.
-Proof. exact find_base_total. Qed.
-
-Theorem C13_maps_use_rules : forall s1 s2 fuel d1 d2,
-  find_base s1 s2 fuel = Found d1 d2 ->
+Theorem C13_maps_use_rules : forall s1 s2 fuel wfuel d1 d2,
+  find_base s1 s2 fuel wfuel = Found d1 d2 ->
   (forall l c, In (l, c) d1 -> (c = [] /\ atom_of s1 l <> None) \/ exists k, In (c, k) (rules_of s1 l)) /\
   (forall l c, In (l, c) d2 -> (c = [] /\ atom_of s2 l <> None) \/ exists k, In (c, k) (rules_of s2 l)).
 Proof. exact find_base_good. Qed.
 
+(* ---------------------------------------------------------------- ParallelInfo *)
+Theorem C13_universe_well_formed : forall db lis s,
+  ver_no_children db -> construct db lis = COk s ->
+  universe_of (db_rep db) s (db_keys db) /\ s_root s = db_rep db (db_start db).
+Proof. intros db lis s Hv. exact (construct_universe db Hv lis s). Qed.
+
+(* ---------------------------------------------------------------- the specification stage *)
 Theorem C13_spec_from_label_map : forall rep fpath stored (d : smap) root_eq start order fuel keys,
   (forall l t, rep l = rep t -> fpath l t <> [] /\ hd O (fpath l t) = l /\ last (fpath l t) O = t) ->
   tree_keys d root_eq fuel = Some keys ->
@@ -111,36 +128,47 @@ Theorem C13_spec_from_label_map : forall rep fpath stored (d : smap) root_eq sta
     (forall e, In e dict -> In e stored \/ exists l t p c, step_of (fpath l t) p c /\ e = (p, [c])).
 Proof. intros rep fpath stored d root_eq start order fuel keys Hf. exact (spec_from_label_map rep fpath Hf stored d root_eq start order fuel keys). Qed.
 
-(* ---------------------------------------------------------------- holds with the proposed repair *)
-Theorem C13_matched_pair_with_repair : forall s1 s2 fuel wfuel d1 d2,
-  find_base_fixed s1 s2 fuel wfuel = Found d1 d2 -> matched_pair s1 s2 d1 d2.
-Proof. exact fixed_base_matched. Qed.
-
-Theorem C13_matched_pair_with_repair_eqpath : forall s1 s2 fuel wfuel oracle d1 d2 asked,
-  find_eq_fixed s1 s2 fuel wfuel oracle = EOut (Found d1 d2) asked -> matched_pair s1 s2 d1 d2.
-Proof. exact fixed_eq_matched. Qed.
-
-Theorem C13_repaired_base_finder_total : forall s1 s2 fuel wfuel,
-  (length (all_pairs s1 s2) < fuel)%nat ->
-  (length (all_pairs s1 s2) * S (max_arity s2) + 1 < wfuel)%nat ->
-  find_base_fixed s1 s2 fuel wfuel = Nothing \/ exists d1 d2, find_base_fixed s1 s2 fuel wfuel = Found d1 d2.
-Proof. exact find_base_fixed_total. Qed.
-
-Theorem C13_two_rule_sets_with_repair :
-  forall s1 s2 fuel wfuel d1 d2,
-  find_base_fixed s1 s2 fuel wfuel = Found d1 d2 ->
-  forall rep1 fpath1 stored1 start1 order1 tf1 keys1 rep2 fpath2 stored2 start2 order2 tf2 keys2,
-  (forall l t, rep1 l = rep1 t -> fpath1 l t <> [] /\ hd O (fpath1 l t) = l /\ last (fpath1 l t) O = t) ->
-  (forall l t, rep2 l = rep2 t -> fpath2 l t <> [] /\ hd O (fpath2 l t) = l /\ last (fpath2 l t) O = t) ->
-  universe_of rep1 s1 stored1 -> universe_of rep2 s2 stored2 ->
+Theorem C13_two_rule_sets : forall db1 lis1 db2 lis2 s1 s2 fuel wfuel d1 d2,
+  construct db1 lis1 = COk s1 -> construct db2 lis2 = COk s2 ->
+  ver_no_children db1 -> ver_no_children db2 ->
+  find_base s1 s2 fuel wfuel = Found d1 d2 ->
+  forall fpath1 order1 tf1 keys1 fpath2 order2 tf2 keys2,
+  fpath_ok (db_rep db1) fpath1 -> fpath_ok (db_rep db2) fpath2 ->
   tree_keys d1 (s_root s1) tf1 = Some keys1 -> tree_keys d2 (s_root s2) tf2 = Some keys2 ->
-  rep1 start1 = s_root s1 -> rep2 start2 = s_root s2 ->
-  order_ok rep1 stored1 keys1 start1 order1 -> order_ok rep2 stored2 keys2 start2 order2 ->
-  rule_set_ok rep1 fpath1 stored1 keys1 start1 order1 /\ rule_set_ok rep2 fpath2 stored2 keys2 start2 order2.
-Proof.
-  intros s1 s2 fuel wfuel d1 d2 H. destruct (fixed_base_matched s1 s2 fuel wfuel d1 d2 H) as [C1 [C2 _]].
-  intros. split; eapply side_spec_from_matched; eauto.
-Qed.
+  order_ok (db_rep db1) (db_keys db1) keys1 (db_start db1) order1 ->
+  order_ok (db_rep db2) (db_keys db2) keys2 (db_start db2) order2 ->
+  rule_set_ok (db_rep db1) fpath1 (db_keys db1) keys1 (db_start db1) order1 /\
+  rule_set_ok (db_rep db2) fpath2 (db_keys db2) keys2 (db_start db2) order2.
+Proof. exact two_rule_sets. Qed.
+
+Theorem C13_two_rule_sets_eqpath : forall db1 lis1 db2 lis2 s1 s2 pw fuel wfuel oracle woracle d1 d2 asked,
+  construct db1 lis1 = COk s1 -> construct db2 lis2 = COk s2 ->
+  ver_no_children db1 -> ver_no_children db2 ->
+  find_eq s1 s2 pw fuel wfuel oracle woracle = EOut (Found d1 d2) asked ->
+  forall fpath1 order1 tf1 keys1 fpath2 order2 tf2 keys2,
+  fpath_ok (db_rep db1) fpath1 -> fpath_ok (db_rep db2) fpath2 ->
+  tree_keys d1 (s_root s1) tf1 = Some keys1 -> tree_keys d2 (s_root s2) tf2 = Some keys2 ->
+  order_ok (db_rep db1) (db_keys db1) keys1 (db_start db1) order1 ->
+  order_ok (db_rep db2) (db_keys db2) keys2 (db_start db2) order2 ->
+  rule_set_ok (db_rep db1) fpath1 (db_keys db1) keys1 (db_start db1) order1 /\
+  rule_set_ok (db_rep db2) fpath2 (db_keys db2) keys2 (db_start db2) order2.
+Proof. exact two_rule_sets_eqpath. Qed.
+
+(* ---------------------------------------------------------------- HISTORY: the code before 97589e3 *)
+Theorem C13_matched_pair_refuted :
+  exists s1 s2 fuel d1 d2, find_base_old s1 s2 fuel = Found d1 d2 /\ ~ matched_pair s1 s2 d1 d2.
+Proof. exact base_returns_unmatched_pair. Qed.
+
+Theorem C13_eqpath_raises_refuted :
+  exists s1 s2 fuel oracle, find_eq_old s1 s2 fuel oracle = EOut (Failed E_KEY) [].
+Proof. exact eqpath_raises_keyerror. Qed.
+
+(* the names under which four of the theorems above were first stated (for the code with the then
+   proposed repair), kept for the documents that refer to them *)
+Definition C13_matched_pair_with_repair := C13_matched_pair.
+Definition C13_matched_pair_with_repair_eqpath := C13_matched_pair_eqpath.
+Definition C13_repaired_base_finder_total := C13_base_finder_total.
+Definition C13_two_rule_sets_with_repair := C13_two_rule_sets.
 
 (* ---------------------------------------------------------------- examples: hypotheses are satisfiable *)
 (* a pair of universes with recursion, a binary rule with repeated children and a permuted match:
@@ -153,8 +181,8 @@ Definition ex2 : side :=
     [(7, [([], (-1)%Z)]); (5, [([6; 7], 0%Z); ([7; 7], 0%Z)]); (6, [([5; 7], 1%Z)])]%nat.
 
 Example C13_nonvacuous :
-  find_base ex1 ex2 30%nat = Found [(2, [0; 1]); (1, [0; 2]); (0, [])]%nat [(5, [6; 7]); (6, [5; 7]); (7, [])]%nat /\
-  find_base_fixed ex1 ex2 30%nat 100%nat = find_base ex1 ex2 30%nat.
+  find_base_old ex1 ex2 30%nat = Found [(2, [0; 1]); (1, [0; 2]); (0, [])]%nat [(5, [6; 7]); (6, [5; 7]); (7, [])]%nat /\
+  find_base ex1 ex2 30%nat 100%nat = find_base_old ex1 ex2 30%nat.
 Proof. split; vm_compute; reflexivity. Qed.
 
 (* the hypothesis of C13_failure_memo_sound is satisfiable: the two roots of ex1/ex2 are matchable
@@ -208,6 +236,25 @@ Proof.
     destruct l as [|[|[|[|[|[|l]]]]]]; vm_compute; intuition congruence.
 Qed.
 
+(* ParallelInfo on a small rule database: start label 5 (representative 0), label 2 equivalent to 1, label 1
+   an atom, label 4 an EMPTY class with its EmptyStrategy rule (skipped since a172a92); the replayed order
+   is the set of pruned rules; the universe built is ex_side *)
+Definition ex_db : rdb :=
+  mkDB 5%nat [0; 1; 1; 3; 4; 0]%nat
+       [(false, None); (false, Some 1%Z); (false, None); (false, None); (true, None); (false, None)]
+       [((0, [1; 2])%nat, 0%Z); ((1, [])%nat, (-1)%Z); ((4, [])%nat, (-1)%Z)].
+Definition ex_lis : list rkey := [(0, [1; 1]); (1, []); (4, [])]%nat.
+Example C13_construct_example :
+  construct ex_db ex_lis = COk ex_side /\ lis_agrees ex_db ex_lis = true /\ ver_no_children ex_db.
+Proof.
+  split; [vm_compute; reflexivity|]. split; [vm_compute; reflexivity|].
+  intros key z [H|[H|[H|[]]]] Hz; inversion H; subst; try reflexivity. discriminate.
+Qed.
+
+(* an oracle that answers every question *)
+Example C13_total_oracle : forall k : qkey, (fun _ : qkey => Some true) k <> None.
+Proof. intros k. discriminate. Qed.
+
 (* what _create_spec did before a34d719: the root EQUIVALENCE label 0 in place of the start label 5 —
    the dictionary has no entry for the start label (the real extractor then fails in the
    specification with "rule not in the spec and not empty") *)
@@ -216,219 +263,18 @@ Example C13_root_label_instead_of_start :
     dom dict 5%nat = false.
 Proof. eexists. split; vm_compute; reflexivity. Qed.
 
-(* ================================================================ NON-VACUITY (audit)
-   Every theorem above with hypotheses is APPLIED to a concrete instance (all hypotheses discharged at
-   once).  Universes: ex1 / ex2 (three labels each, recursion, two candidate rules for the root, a
-   permuted match, five pairs visited of which three are recorded as failed).
-   NB  labels s  lists labels with repetitions, so  length (all_pairs ex1 ex2) = 100: the fuel bounds of
-   the two totality theorems are 101 and 302 here (loose but satisfiable). *)
-Definition ex_fst : fstate :=
-  mkF [((0, 7), [(([], []), [])]);
-       ((1, 6), [(([0; 2], [5; 7]), [1; 0]%Z)]);
-       ((2, 5), [(([0; 1], [6; 7]), [1; 0]%Z); (([0; 0], [7; 7]), [0; 1]%Z)])]%nat
-      [(2, 5); (1, 7); (1, 6); (0, 5); (0, 6)]%nat [].
-Lemma ex_first : find ex1 ex2 101 (s_root ex1) (s_root ex2) init_fstate = Ok (true, ex_fst).
-Proof. vm_compute. reflexivity. Qed.
-Definition ex_d1 : smap := [(2, [0; 1]); (1, [0; 2]); (0, [])]%nat.
-Definition ex_d2 : smap := [(5, [6; 7]); (6, [5; 7]); (7, [])]%nat.
-Lemma ex_found : find_base ex1 ex2 101 = Found ex_d1 ex_d2.
-Proof. vm_compute. reflexivity. Qed.
-Lemma ex_found_fixed : find_base_fixed ex1 ex2 101 400 = Found ex_d1 ex_d2.
-Proof. vm_compute. reflexivity. Qed.
-Lemma ex_fuel : (length (all_pairs ex1 ex2) < 101)%nat.
-Proof. vm_compute. repeat constructor. Qed.
-Lemma ex_wfuel : (length (all_pairs ex1 ex2) * S (max_arity ex2) + 1 < 400)%nat.
-Proof. vm_compute. repeat constructor. Qed.
-
-(* covers C13_first_search_sound: the recorded entry of the root pair with the PERMUTED order *)
-Example C13_first_search_sound_nonvacuous :
-  In ([0; 1], [6; 7])%nat (potential_children ex1 ex2 2 5) /\ perm_ok 2 [1; 0]%Z.
-Proof.
-  destruct (C13_first_search_sound ex1 ex2 101 true ex_fst ex_first 2%nat 5%nat
-              [(([0; 1], [6; 7]), [1; 0]%Z); (([0; 0], [7; 7]), [0; 1]%Z)]%nat
-              ([0; 1], [6; 7])%nat [1; 0]%Z ltac:(vm_compute; reflexivity) (or_introl eq_refl))
-    as [[E _]|[A [_ B]]]; [discriminate|split; assumption].
-Qed.
-(* ... the atom branch of the disjunction is taken for the pair of atoms *)
-Example C13_first_search_sound_atom_branch : atoms_match ex1 ex2 0 7 = true.
-Proof.
-  destruct (C13_first_search_sound ex1 ex2 101 true ex_fst ex_first 0%nat 7%nat
-              [(([], []), [])] ([], []) [] ltac:(vm_compute; reflexivity) (or_introl eq_refl))
-    as [[_ [_ E]]|[_ [A _]]]; [exact E|exfalso; apply A; reflexivity].
-Qed.
-
-(* covers C13_failure_memo_sound: (1,7) is in `visited` and not in matching_info, hence not matchable;
-   the roots are matchable (C13_matchable_example) and the answer is True *)
-Example C13_failure_memo_sound_nonvacuous :
-  ~ matchable ex1 ex2 (1, 7)%nat /\ (matchable ex1 ex2 (s_root ex1, s_root ex2) -> true = true).
-Proof.
-  destruct (C13_failure_memo_sound ex1 ex2 101 true ex_fst ex_first) as [A B].
-  split; [|exact B].
-  apply A; [right; left; reflexivity|vm_compute; reflexivity].
-Qed.
-(* ... and the conclusion discriminates: on a pair of universes whose roots do not match the first
-   search answers False, so (contrapositive of the second part) the roots are NOT matchable *)
-Example C13_failure_memo_sound_false_branch : ~ matchable ex1 w2 (s_root ex1, s_root w2).
-Proof.
-  intros H.
-  destruct (C13_failure_memo_sound ex1 w2 101 false
-              (mkF [] [(2, 3); (0, 2); (0, 1)]%nat []) ltac:(vm_compute; reflexivity)) as [_ B].
-  specialize (B H). discriminate.
-Qed.
-
-(* C13_base_finder_never_raises has no hypotheses; its conclusion is not true of every finder of the
-   model: the EqPath variant does reach Failed (C13_eqpath_raises_refuted). *)
-
-(* covers C13_base_finder_total (and shows which branch is taken: Found) *)
-Example C13_base_finder_total_nonvacuous :
-  find_base ex1 ex2 101 = Nothing \/ exists d1 d2, find_base ex1 ex2 101 = Found d1 d2.
-Proof. exact (C13_base_finder_total ex1 ex2 101%nat ex_fuel). Qed.
-Example C13_base_finder_total_branch :
-  find_base ex1 ex2 101 = Found ex_d1 ex_d2 /\ find_base ex1 w2 101 = Nothing /\
-  find_base ex1 ex2 2 = NoFuel.
-Proof. repeat split; vm_compute; reflexivity. Qed.
-
-(* covers C13_maps_use_rules *)
-Example C13_maps_use_rules_nonvacuous :
-  (exists k, In ([0; 2]%nat, k) (rules_of ex1 1)) /\ (exists k, In ([6; 7]%nat, k) (rules_of ex2 5)).
-Proof.
-  destruct (C13_maps_use_rules ex1 ex2 101 ex_d1 ex_d2 ex_found) as [A B]. split.
-  - destruct (A 1%nat [0; 2]%nat ltac:(simpl; auto)) as [[E _]|H]; [discriminate|exact H].
-  - destruct (B 5%nat [6; 7]%nat ltac:(simpl; auto)) as [[E _]|H]; [discriminate|exact H].
-Qed.
-
-(* covers C13_matched_pair_with_repair *)
-Example C13_matched_pair_with_repair_nonvacuous : matched_pair ex1 ex2 ex_d1 ex_d2.
-Proof. exact (C13_matched_pair_with_repair ex1 ex2 101 400 ex_d1 ex_d2 ex_found_fixed). Qed.
-
-(* covers C13_matched_pair_with_repair_eqpath: the oracle answers the three questions the EqPath
-   variant asks on this input (root pair, (1,6) below it, the root pair again below (1,6)) *)
-Definition ex_oracle : list (qkey * bool) :=
-  [((2, 5, (0, 0), ([0; 1], [6; 7])), true); ((1, 6, (3, 6), ([0; 2], [5; 7])), true);
-   ((2, 5, (2, 7), ([0; 1], [6; 7])), true)]%nat.
-Example C13_matched_pair_with_repair_eqpath_nonvacuous : matched_pair ex1 ex2 ex_d1 ex_d2.
-Proof.
-  apply (C13_matched_pair_with_repair_eqpath ex1 ex2 101 400 ex_oracle ex_d1 ex_d2 (map fst ex_oracle)).
-  vm_compute. reflexivity.
-Qed.
-(* matched_pair is not true of every pair of maps: C13_matched_pair_refuted exhibits maps returned by
-   the unrepaired finder that are not matched. *)
-
-(* covers C13_repaired_base_finder_total (branch taken: Found; Nothing on the refutation witness) *)
-Example C13_repaired_base_finder_total_nonvacuous :
-  find_base_fixed ex1 ex2 101 400 = Nothing \/ exists d1 d2, find_base_fixed ex1 ex2 101 400 = Found d1 d2.
-Proof. exact (C13_repaired_base_finder_total ex1 ex2 101%nat 400%nat ex_fuel ex_wfuel). Qed.
-Example C13_repaired_base_finder_total_branch :
-  find_base_fixed ex1 ex2 101 400 = Found ex_d1 ex_d2 /\ find_base_fixed w1 w2 20 100 = Nothing.
-Proof. split; vm_compute; reflexivity. Qed.
-
-(* covers C13_spec_from_label_map, in the a34d719 situation (start label 5 is not its own
-   representative; label 2 is equivalent to label 1) *)
-Lemma ex_fpath_ok (rep : nat -> nat) : forall l t, rep l = rep t ->
-  ex_fpath l t <> [] /\ hd O (ex_fpath l t) = l /\ last (ex_fpath l t) O = t.
-Proof.
-  intros l t _. unfold ex_fpath. destruct (Nat.eqb l t) eqn:E.
-  - apply PeanoNat.Nat.eqb_eq in E. subst. repeat split. discriminate.
-  - repeat split. discriminate.
-Qed.
-Example C13_spec_from_label_map_nonvacuous :
-  rule_set_ok ex_rep ex_fpath [(0, [1; 2]); (1, [])]%nat [(0, [1; 1]); (1, [])]%nat 5%nat [5; 2]%nat.
-Proof.
-  apply (C13_spec_from_label_map ex_rep ex_fpath [(0, [1; 2]); (1, [])]%nat [(0, [1; 1]); (1, [])]%nat
-           0%nat 5%nat [5; 2]%nat 10%nat [(0, [1; 1]); (1, [])]%nat (ex_fpath_ok ex_rep)).
-  - vm_compute. reflexivity.
-  - reflexivity.
-  - intros e [<-|[<-|[]]].
-    + exists (0, [1; 2])%nat. split; [left; reflexivity|vm_compute; reflexivity].
-    + exists (1, [])%nat. split; [right; left; reflexivity|vm_compute; reflexivity].
-  - destruct C13_two_rule_sets_hypotheses as [_ [_ H]]. exact H.
-Qed.
-
-(* covers C13_two_rule_sets_with_repair: BOTH sides at once, on ex1 / ex2, each read off a rule database
-   with non-trivial equivalences:
-     side 1  labels 3 ~ 0 and 9 ~ 2; the start label is 9 (root equivalence label 2); the stored rules
-             mention label 3 where the universe has 0;
-     side 2  label 4 ~ 5; the start label is 4 (root equivalence label 5). *)
-Definition rep1 := fun l : nat => match l with 9 => 2 | 3 => 0 | _ => l end%nat.
-Definition rep2 := fun l : nat => match l with 4 => 5 | _ => l end%nat.
-Definition stored1 : list rkey := [(0, []); (1, [3; 2]); (2, [0; 1]); (2, [3; 0])]%nat.
-Definition stored2 : list rkey := [(7, []); (5, [6; 7]); (5, [7; 7]); (6, [5; 7])]%nat.
-Definition keys1 : list rkey := [(2, [0; 1]); (0, []); (1, [0; 2])]%nat.
-Definition keys2 : list rkey := [(5, [6; 7]); (6, [5; 7]); (7, [])]%nat.
-
-Lemma ex_universe1 : universe_of rep1 ex1 stored1.
-Proof.
-  split.
-  - intros l c k H. unfold rules_of in H.
-    destruct (assoc_nat (s_rules ex1) l) as [rs|] eqn:E; [|destruct H].
-    apply assoc_nat_In in E. simpl in E.
-    destruct E as [E|[E|[E|[]]]]; inversion E; subst; simpl in H.
-    + destruct H as [H|[]]. inversion H; subst. exists (0, [])%nat. split; [simpl; auto|reflexivity].
-    + destruct H as [H|[]]. inversion H; subst. exists (1, [3; 2])%nat.
-      split; [simpl; auto|vm_compute; reflexivity].
-    + destruct H as [H|[H|[]]]; inversion H; subst.
-      * exists (2, [0; 1])%nat. split; [simpl; auto|vm_compute; reflexivity].
-      * exists (2, [3; 0])%nat. split; [simpl; auto|vm_compute; reflexivity].
-  - intros l H. unfold atom_of in H. destruct (assoc_nat (s_atoms ex1) l) as [z|] eqn:E; [|congruence].
-    apply assoc_nat_In in E. simpl in E. destruct E as [E|[]]. inversion E; subst.
-    exists (0, [])%nat. split; [simpl; auto|reflexivity].
-Qed.
-Lemma ex_universe2 : universe_of rep2 ex2 stored2.
-Proof.
-  split.
-  - intros l c k H. unfold rules_of in H.
-    destruct (assoc_nat (s_rules ex2) l) as [rs|] eqn:E; [|destruct H].
-    apply assoc_nat_In in E. simpl in E.
-    destruct E as [E|[E|[E|[]]]]; inversion E; subst; simpl in H.
-    + destruct H as [H|[]]. inversion H; subst. exists (7, [])%nat. split; [simpl; auto|reflexivity].
-    + destruct H as [H|[H|[]]]; inversion H; subst.
-      * exists (5, [6; 7])%nat. split; [simpl; auto|vm_compute; reflexivity].
-      * exists (5, [7; 7])%nat. split; [simpl; auto|vm_compute; reflexivity].
-    + destruct H as [H|[]]. inversion H; subst. exists (6, [5; 7])%nat.
-      split; [simpl; auto|vm_compute; reflexivity].
-  - intros l H. unfold atom_of in H. destruct (assoc_nat (s_atoms ex2) l) as [z|] eqn:E; [|congruence].
-    apply assoc_nat_In in E. simpl in E. destruct E as [E|[]]. inversion E; subst.
-    exists (7, [])%nat. split; [simpl; auto|reflexivity].
-Qed.
-Lemma ex_order1 : order_ok rep1 stored1 keys1 9%nat [9; 3]%nat.
-Proof.
-  intros d0 e2p H. vm_compute in H. inversion H; subst. intros l.
-  do 10 (destruct l as [|l]; [vm_compute; intuition congruence|]). vm_compute; intuition congruence.
-Qed.
-Lemma ex_order2 : order_ok rep2 stored2 keys2 4%nat [4]%nat.
-Proof.
-  intros d0 e2p H. vm_compute in H. inversion H; subst. intros l.
-  do 8 (destruct l as [|l]; [vm_compute; intuition congruence|]). vm_compute; intuition congruence.
-Qed.
-Example C13_two_rule_sets_with_repair_nonvacuous :
-  rule_set_ok rep1 ex_fpath stored1 keys1 9%nat [9; 3]%nat /\
-  rule_set_ok rep2 ex_fpath stored2 keys2 4%nat [4]%nat.
-Proof.
-  apply (C13_two_rule_sets_with_repair ex1 ex2 101 400 ex_d1 ex_d2 ex_found_fixed
-           rep1 ex_fpath stored1 9%nat [9; 3]%nat 10%nat keys1
-           rep2 ex_fpath stored2 4%nat [4]%nat 10%nat keys2
-           (ex_fpath_ok rep1) (ex_fpath_ok rep2) ex_universe1 ex_universe2
-           ltac:(vm_compute; reflexivity) ltac:(vm_compute; reflexivity) eq_refl eq_refl
-           ex_order1 ex_order2).
-Qed.
-(* ... and the two dictionaries the extractor really returns (equivalence-path rules 9 -> 2, 3 -> 0 on
-   side 1 and 4 -> 5 on side 2 are added) *)
-Example C13_two_rule_sets_with_repair_value :
-  extract rep1 ex_fpath stored1 keys1 9%nat [9; 3]%nat
-    = Some [(2, [0; 1]); (0, []); (1, [3; 2]); (9, [2]); (3, [0])]%nat /\
-  extract rep2 ex_fpath stored2 keys2 4%nat [4]%nat
-    = Some [(5, [6; 7]); (6, [5; 7]); (7, []); (4, [5])]%nat.
-Proof. split; vm_compute; reflexivity. Qed.
-
-Print Assumptions C13_matched_pair_refuted.
-Print Assumptions C13_eqpath_raises_refuted.
-Print Assumptions C13_first_search_sound.
-Print Assumptions C13_failure_memo_sound.
+Print Assumptions C13_matched_pair.
+Print Assumptions C13_matched_pair_eqpath.
 Print Assumptions C13_base_finder_never_raises.
 Print Assumptions C13_base_finder_total.
+Print Assumptions C13_eqpath_finder_never_raises.
+Print Assumptions C13_eqpath_finder_total.
+Print Assumptions C13_first_search_sound.
+Print Assumptions C13_failure_memo_sound.
 Print Assumptions C13_maps_use_rules.
+Print Assumptions C13_universe_well_formed.
 Print Assumptions C13_spec_from_label_map.
-Print Assumptions C13_matched_pair_with_repair.
-Print Assumptions C13_matched_pair_with_repair_eqpath.
-Print Assumptions C13_repaired_base_finder_total.
-Print Assumptions C13_two_rule_sets_with_repair.
+Print Assumptions C13_two_rule_sets.
+Print Assumptions C13_two_rule_sets_eqpath.
+Print Assumptions C13_matched_pair_refuted.
+Print Assumptions C13_eqpath_raises_refuted.
